@@ -6,6 +6,7 @@
 import Rl.Keys
 import Rl.Editor
 import Rl.Lemmas.Keys
+import Rl.Lemmas.KeysProgress
 open Rl
 
 /-- A successful read of one byte consumes exactly one byte of the input (buffer, kernel queue or
@@ -20,11 +21,50 @@ theorem C17_read_byte_error (i : Input) (e : RdErr) (h : i.readByte = .error e) 
 /-- Waiting for input (`poll` with an infinite time-out) loses nothing. -/
 theorem C17_poll_keeps_input (i : Input) : i.pollWait.size = i.size := Input.pollWait_size i
 
-/-- Full statement (decoder progress): every decoded key consumes at least one byte, so a read
-    cannot loop forever on a finite input. Proved for the byte layer above; the lift through the
-    escape-sequence tables is work in progress (see DESIGN.md). -/
-def C17_decoder_progress_statement : Prop :=
-  ∀ (i i' : Input) (sea : Bool) (k : KeyEvent), i.nextKey sea = .ok (k, i') → i'.size < i.size
+/-- **Decoder progress**: every decoded key consumes at least one byte, so a read cannot loop
+    forever on a finite input.  Lifted from the byte layer through `nextChar`, `escapeO`,
+    `escapeCsi`, `extendedEscape`, `escapeSequence` and `nextKey` (Rl/Lemmas/KeysProgress.lean). -/
+theorem C17_decoder_progress :
+    ∀ (i i' : Input) (sea : Bool) (k : KeyEvent), i.nextKey sea = .ok (k, i') → i'.size < i.size := by
+  intro i i' sea k h
+  have hr := Input.nextKey_res i sea
+  rw [h] at hr
+  have := hr.1
+  omega
+
+/-- A decoded key never looks further than 36 bytes ahead (ESC ESC [ d d ; d d x, four bytes per
+    character at most): the decoder cannot swallow an unbounded amount of input for one key. -/
+theorem C17_decoder_bounded_lookahead (i i' : Input) (sea : Bool) (k : KeyEvent)
+    (h : i.nextKey sea = .ok (k, i')) : i.size ≤ i'.size + 36 := by
+  have hr := Input.nextKey_res i sea
+  rw [h] at hr
+  exact hr.2
+
+/-- **Decoder errors**: a failed decode is an I/O error or invalid data, never anything else (and,
+    being a value of `RdErr`, never a panic); and it is an I/O error only when the input ran out
+    inside the key: fewer than 36 bytes (the longest sequence the decoder reads) were left when the
+    key started.  (`C17_read_byte_error`: a byte read itself fails only on the hang-up.) -/
+theorem C17_decoder_errors (i : Input) (sea : Bool) (e : RdErr) (h : i.nextKey sea = .error e) :
+    (e = .io ∨ e = .invalidData) ∧ (e = .io → i.size < 36) := by
+  have hr := Input.nextKey_res i sea
+  rw [h] at hr
+  rcases hr with ⟨rfl, hs⟩ | rfl
+  · exact ⟨.inl rfl, fun _ => hs⟩
+  · exact ⟨.inr rfl, fun h => by cases h⟩
+
+/-- the same for a single character (`next_char`, used by quoted insert and the sub-loops) -/
+theorem C17_next_char_progress (i i' : Input) (c : Char) (h : i.nextChar = .ok (c, i')) :
+    i'.size < i.size ∧ i.size ≤ i'.size + 4 := by
+  have hr := Input.nextChar_res i
+  rw [h] at hr
+  exact ⟨by have := hr.1; omega, hr.2⟩
+
+/-- with input left to read, the decoder never reports an I/O error: a hang-up is the only source -/
+theorem C17_decoder_io_only_at_end (i : Input) (sea : Bool) (h : 36 ≤ i.size) :
+    i.nextKey sea ≠ .error .io := by
+  intro he
+  have := (C17_decoder_errors i sea .io he).2 rfl
+  omega
 
 /-- Full statement (editor): from the initial state no key sequence makes the editor model reach
     a panic outcome. False on the pinned tree before the D5 repair (`y^` slices backwards). -/
